@@ -224,3 +224,196 @@ class _QUnary(Contract):
 
 for _n in ("neg", "pos", "abs"):
     contract(type("QU" + _n, (_QUnary,), {"qual": "measured.Quantity.__%s__" % _n, "fn": _n}))
+
+
+# ---------------------------------------------------------------------------------------------
+# conversion-dependent operations (C03 gate, C06 values, C12 comparisons)
+
+
+def qval(c, q):
+    """physical value of a quantity in the ghost size model: magnitude * size(unit)"""
+    return mval(c, q) * size(c, c.f(q, "unit"))
+
+
+def both_offset_free(c, u1, u2):
+    """neither unit involves a temperature-like scale (a property of the factors, not of the prefix)"""
+    return z3.And(offset_free_m(c.fz("Unit", u1, "factors")), offset_free_m(c.fz("Unit", u2, "factors")))
+
+
+@contract
+class Convert(Contract):
+    """conversions.convert: the dimension gate, the requested unit, Decimal preservation and
+    (for offset-free units) the value relation of C04.  Body: see contracts/c_conversions.py
+    (the planner behind it is only bounded: this contract is listed in the trusted base of
+    everything that converts)."""
+    qual = "measured.conversions.convert"
+    props = ("C03", "C04", "C05", "C06", "C07")
+    trusted = True
+    inv = ("I_D", "I_P", "I_U")
+    modifies = _UnitBin.modifies + ("new:Quantity",)
+    may_raise = ("ConversionNotFound",)
+    ret = T_QTY
+
+    def requires(self, c, a):
+        yield "wf-quantity", wf_qty(c, a.quantity)
+        yield "wf-unit", wf_unit(c, a.other_unit)
+
+    def raises(self, c, a):
+        yield "ConversionNotFound", c.f(qunit(c, a.quantity), "dimension") != c.f(a.other_unit, "dimension"), "different-dimension"
+
+    def ensures(self, c, a, r):
+        o = c.old
+        yield "fresh-quantity", z3.And(c.alive(r), z3.Not(o.alive(r)))
+        yield "asked-unit", c.f(r, "unit") == a.other_unit.ref
+        yield "decimal-preserved", kind_rule(mkind(c, r), mkind(o, a.quantity))
+        yield "value", z3.Implies(both_offset_free(o, o.f(a.quantity, "unit"), a.other_unit.ref),
+                                  mval(c, r) * size(o, a.other_unit.ref) == qval(o, a.quantity))
+        for t in ("Unit._known", "Prefix._known", "Dimension._known"):
+            yield "table-grows-" + t, same_table_grows(c, t)
+        u = z3.Const("u!cv", Ref("Unit"))
+        yield "units-unchanged", z3.ForAll([u], z3.Implies(o.alivez("Unit", u), z3.And(
+            c.fz("Unit", u, "prefix") == o.fz("Unit", u, "prefix"), c.fz("Unit", u, "factors") == o.fz("Unit", u, "factors"))))
+
+
+@contract
+class QInUnit(Convert):
+    qual = "measured.Quantity.in_unit"
+    trusted = False
+
+    def requires(self, c, a):
+        yield "wf-quantity", wf_qty(c, a.self)
+        yield "wf-unit", wf_unit(c, a.other)
+
+    def raises(self, c, a):
+        yield "ConversionNotFound", c.f(qunit(c, a.self), "dimension") != c.f(a.other, "dimension"), "different-dimension"
+
+    def ensures(self, c, a, r):
+        from pyvc.verify import Args
+        yield from Convert.ensures(self, c, Args({"quantity": a.self, "other_unit": a.other}), r)
+
+
+@contract
+class QUnprefixed(Contract):
+    qual = "measured.Quantity.unprefixed"
+    props = ("C06", "C11", "C12")
+    inv = ("I_D", "I_P", "I_U")
+    modifies = _UnitBin.modifies + ("new:Quantity",)
+    ret = T_QTY
+
+    def requires(self, c, a):
+        yield "wf-self", wf_qty(c, a.self)
+
+    def ensures(self, c, a, r):
+        o = c.old
+        su = qunit(o, a.self)
+        ru = qunit(c, r)
+        yield "fresh-quantity", z3.And(c.alive(r), z3.Not(o.alive(r)))
+        yield "unit-live", live(c, ru)
+        yield "unit-unprefixed", c.f(ru, "prefix") == IdentityPrefix.ref
+        yield "unit-factors", c.f(ru, "factors") == o.f(su, "factors")
+        yield "unit-dimension", pointwise(c, VObj("Dimension", c.f(ru, "dimension")), lambda i: dexp(o, VObj("Dimension", o.f(su, "dimension")), i))
+        yield "magnitude", mval(c, r) == mval(o, a.self) * pval_z(o, o.f(su, "prefix"))
+        yield "value-preserved", qval(c, r) == qval(o, a.self)
+        for t in ("Unit._known", "Prefix._known", "Dimension._known"):
+            yield "table-grows-" + t, same_table_grows(c, t)
+
+
+class _QAddSub(Contract):
+    props = ("C03", "C06")
+    inv = ("I_D", "I_P", "I_U")
+    modifies = _UnitBin.modifies + ("new:Quantity",)
+    may_raise = ("ConversionNotFound",)
+    types = {"other": [T_QTY, T_UNIT, ("int",), ("other",)]}
+    sign = 1
+
+    def ret(self, a):
+        return T_QTY if isinstance(a.other, VObj) and a.other.cls == "Quantity" else ("notimpl",)
+
+    def requires(self, c, a):
+        yield "wf-self", wf_qty(c, a.self)
+        if isinstance(a.other, VObj) and a.other.cls == "Quantity":
+            yield "wf-other", wf_qty(c, a.other)
+
+    def raises(self, c, a):
+        if isinstance(a.other, VObj) and a.other.cls == "Quantity":
+            yield "ConversionNotFound", c.f(qunit(c, a.self), "dimension") != c.f(qunit(c, a.other), "dimension"), "different-dimension"
+
+    def ensures(self, c, a, r):
+        o = c.old
+        if not (isinstance(a.other, VObj) and a.other.cls == "Quantity"):
+            yield "not-implemented", z3.BoolVal(isinstance(r, VNotImpl))
+            return
+        if not (isinstance(r, VObj) and r.cls == "Quantity"):
+            yield "returns-quantity", z3.BoolVal(False)
+            return
+        yield "fresh-quantity", z3.And(c.alive(r), z3.Not(o.alive(r)))
+        yield "left-unit", c.f(r, "unit") == o.f(a.self, "unit")
+        yield "decimal-preserved", kind_rule(mkind(c, r), mkind(o, a.self), mkind(o, a.other))
+        yield "value", z3.Implies(both_offset_free(o, o.f(a.self, "unit"), o.f(a.other, "unit")),
+                                  mval(c, r) * size(o, o.f(a.self, "unit")) == qval(o, a.self) + self.sign * qval(o, a.other))
+
+
+@contract
+class QAdd(_QAddSub):
+    qual = "measured.Quantity.__add__"
+
+
+@contract
+class QSub(_QAddSub):
+    qual = "measured.Quantity.__sub__"
+    sign = -1
+
+
+class _QCompare(Contract):
+    """Quantity.__eq__ / __lt__: NotImplemented for other types, other dimensions and when no
+    conversion exists (the data model then yields False for == and TypeError for <); otherwise
+    the comparison of the physical values.  No exception escapes (C07)."""
+    props = ("C03", "C06", "C07", "C12")
+    inv = ("I_D", "I_P", "I_U")
+    modifies = _UnitBin.modifies + ("new:Quantity",)
+    types = {"other": [T_QTY, T_UNIT, ("int",), ("other",)]}
+    op = "eq"
+
+    def ret(self, a):
+        if isinstance(a.other, VObj) and a.other.cls == "Quantity":
+            return [("bool",), ("notimpl",)]
+        return ("notimpl",)
+
+    def requires(self, c, a):
+        yield "wf-self", wf_qty(c, a.self)
+        if isinstance(a.other, VObj) and a.other.cls == "Quantity":
+            yield "wf-other", wf_qty(c, a.other)
+
+    def ensures(self, c, a, r):
+        o = c.old
+        if not (isinstance(a.other, VObj) and a.other.cls == "Quantity"):
+            yield "not-implemented", z3.BoolVal(isinstance(r, VNotImpl))
+            return
+        same_dim = o.f(qunit(o, a.self), "dimension") == o.f(qunit(o, a.other), "dimension")
+        if isinstance(r, VNotImpl):
+            # NotImplemented only for another dimension or for units that differ after stripping prefixes
+            yield "notimplemented-justified", z3.Or(z3.Not(same_dim), o.f(qunit(o, a.self), "factors") != o.f(qunit(o, a.other), "factors"))
+            return
+        if not isinstance(r, VBool):
+            yield "returns-bool-or-notimplemented", z3.BoolVal(False)
+            return
+        yield "same-dimension", same_dim
+        x, y = qval(o, a.self), qval(o, a.other)
+        yield "physical-value", z3.Implies(both_offset_free(o, o.f(a.self, "unit"), o.f(a.other, "unit")),
+                                          r.z == ((x == y) if self.op == "eq" else (x < y)))
+        for t in ("Unit._known", "Prefix._known", "Dimension._known"):
+            yield "table-grows-" + t, same_table_grows(c, t)
+
+    def exit_obligations(self, c, a, r):
+        return []
+
+
+@contract
+class QEq(_QCompare):
+    qual = "measured.Quantity.__eq__"
+
+
+@contract
+class QLt(_QCompare):
+    qual = "measured.Quantity.__lt__"
+    op = "lt"
